@@ -3,7 +3,7 @@
 # reported but is not an alarm).  usage: tools/harmless_run.sh [name ...]
 cd "$(dirname "$0")/.."
 [ -z "$(git -C /repo status --porcelain -- operon_ai)" ] || { echo "/repo is not clean"; exit 9; }
-declare -A PROPS=( [H01]="C04 C05" [H02]="C07 C08" [H03]="C09" [H04]="C19" [H05]="C06" [H06]="C10" [H07]="C13" [H08]="C20" [H09]="C14 C15" [H10]="C01 C02" [H11]="C17" [H12]="C12" [H13]="C01 C02" [H14]="C19" [H16]="C06" [H17]="C12" [H18]="C01 C02" [H21]="C13" [H22]="C09" [H23]="C03 C01" [B01]="C14 C15" [B02]="C14 C15" [B03]="C14" [B04]="C14" [B05]="C14 C15" [B06]="C15 C14" [B07]="C14" [B08]="C03 C01" [B09]="C06" [B10]="C19" [B11]="C12" [B12]="C10" [A01]="C01 C02" [A02]="C01 C02" [A03]="C03 C01" [A04]="C04 C05" [A05]="C05 C04" [A06]="C06" [A07]="C07 C08" [A08]="C08 C07" [A09]="C09" [A10]="C10" [A11]="C11" [A12]="C12" [A13]="C13" [A14]="C14 C15" [A15]="C15 C14" [A16]="C16" [A17]="C17" [A18]="C18" [A19]="C19" [A20]="C20" )
+declare -A PROPS=( [H01]="C04 C05" [H02]="C07 C08" [H03]="C09" [H04]="C19" [H05]="C06" [H06]="C10" [H07]="C13" [H08]="C20" [H09]="C14 C15" [H10]="C01 C02" [H11]="C17" [H12]="C12" [H13]="C01 C02" [H14]="C19" [H16]="C06" [H17]="C12" [H18]="C01 C02" [H21]="C13" [H22]="C09" [H23]="C03 C01" [B01]="C14 C15" [B02]="C14 C15" [B03]="C14" [B04]="C14" [B05]="C14 C15" [B06]="C15 C14" [B07]="C14" [B08]="C03 C01" [B09]="C06" [B10]="C19" [B11]="C12" [B12]="C10" [A01]="C01 C02" [A02]="C01 C02" [A03]="C03 C01" [A04]="C04 C05" [A05]="C05 C04" [A06]="C06" [A07]="C07 C08" [A08]="C08 C07" [A09]="C09" [A10]="C10" [A11]="C11" [A12]="C12" [A13]="C13" [A14]="C14 C15" [A15]="C15 C14" [A16]="C16" [A17]="C17" [A18]="C18" [A19]="C19" [A20]="C20" [D01]="C13" [D02]="C17" [D03]="C17" [D04]="C20" [D05]="C03 C10" )
 names=${@:-$(ls harmless | sed 's/\.diff$//')}
 KEEP=$(mktemp -d)
 rc_all=0
